@@ -649,6 +649,8 @@ def run(ctx):
     complement_rule(ctx)
     duplicates_rule(ctx)
     lagrange_rule(ctx)
+    ctx.attempt(lagrange_condition_rule, ctx)
+    ctx.attempt(orphan_detection_rule, ctx)
     prescription_order_rule(ctx)
     from . import c03
 
@@ -706,3 +708,64 @@ def prescription_order_rule(ctx):
             r.fail(f.qualname, tag, f.file, f.lineno, "_Simu.add_dirichlet", f"{tag} node list {nodes}: {bad}")
         else:
             r.ok(f"{tag} node list {nodes}: values and dofs paired in the caller's order")
+
+
+def lagrange_condition_rule(ctx):
+    """R4.11: a LagrangeCondition states  sum_j c_j u_j = value  for the coefficients and the value it was given: what
+    its accessors hand to the solver is (s c, s value) with one common factor s.  The constructor and the accessors are
+    interpreted with coefficients (3, -4) (length 5, not 1) and a symbolic value."""
+    from ..alg import Poly, Q, is_zero
+    from ..xarray import XArray
+
+    repo = ctx.repo
+    r = ctx.rule("R4.11", "LagrangeCondition: the stored coefficients and the stored value are the given ones up to one common factor (the condition enforced is the condition entered)", min_instances=1)
+    ci = repo.cls("EasyFEA.FEM._boundary_conditions.LagrangeCondition")
+    init = ci.methods["__init__"]
+    r.instance(fn=init.qualname)
+    I = Interp(repo)
+    obj = XObj(ci, {})
+    given_c = [Q(3), Q(-4)]
+    c0 = Poly.var("c0")
+    I.call_function(init, [Opaque("pt"), XArray((2,), [0, 1]), XArray((2,), [2, 5]), ["x"], XArray((1,), [c0]), XArray((2,), given_c), "connection"], self_obj=obj)
+    coefs = XArray.from_nested(I.call_function(repo.lookup_method(ci, "lagrangeCoefs"), [], self_obj=obj))
+    vals = XArray.from_nested(I.call_function(repo.lookup_method(ci, "dofsValues"), [], self_obj=obj))
+    bad = None
+    if coefs.size != 2 or vals.size != 1:
+        bad = f"sizes {coefs.size}, {vals.size}"
+    elif not is_zero(Poly.of(coefs.data[0]) * given_c[1] - Poly.of(coefs.data[1]) * given_c[0]):
+        bad = f"stored coefficients {coefs.tolist()} are not proportional to the given (3, -4)"
+    elif not is_zero(Poly.of(vals.data[0]) * given_c[0] - Poly.of(coefs.data[0]) * c0):
+        bad = f"given 3 u_a - 4 u_b = c0, the condition holds coefficients {[str(x) for x in coefs.data]} and value {vals.data[0]!r}: coefficients and value are scaled by different factors, another condition is enforced whenever the value is not zero"
+    if bad:
+        r.fail(init.qualname, "stated-condition", init.file, init.lineno, "LagrangeCondition.__init__", bad)
+    else:
+        r.ok("LagrangeCondition keeps (coefficients, value) up to a common factor")
+
+
+def orphan_detection_rule(ctx):
+    """R4.10: 'nodes not attached to any element do not make the system singular': the orphan list Mesh.__init__
+    builds is exactly the set of node numbers below Nn that no group references -- orphans numbered before, between
+    and AFTER the connected nodes.  The constructor is interpreted on two groups sharing six nodes."""
+    from types import SimpleNamespace
+
+    from ..xarray import XArray
+
+    repo = ctx.repo
+    r = ctx.rule("R4.10", "Mesh.orphanNodes == {n < Nn : no element group references n}, orphans at the front, in the middle and at the back of the numbering", min_instances=2)
+    ci = repo.cls("EasyFEA.FEM._mesh.Mesh")
+    init = ci.methods["__init__"]
+    for Nn, conns, want in ((7, ([[1, 2, 4]], [[1, 2]]), [0, 3, 5, 6]), (4, ([[0, 1, 2]], [[2, 0]]), [3])):
+        r.instance(fn=init.qualname)
+        groups = {}
+        for tag, c in zip(("TRI3", "SEG2"), conns):
+            groups[tag] = SimpleNamespace(Ncoords=Nn, dim=2 if tag == "TRI3" else 1, inDim=2, connect=XArray((len(c), len(c[0])), [n for row in c for n in row]), elemType=tag)
+        obj = XObj(ci, {})
+        I = Interp(repo, extra_builtins={"print": lambda *a, **k: None})
+        I.call_hook = lambda fn, args, kwargs: None if isinstance(fn, FuncInfo) and fn.module.name.startswith("EasyFEA.Utilities") else NotImplemented
+        I.call_function(init, [groups], self_obj=obj)
+        got = I.call_function(repo.lookup_method(ci, "orphanNodes"), [], self_obj=obj)
+        got = sorted(int(x) for x in (got.data if isinstance(got, XArray) else got))
+        if got == want:
+            r.ok(f"Nn = {Nn}: orphans {want}")
+        else:
+            r.fail(init.qualname, f"orphans:Nn={Nn}", init.file, init.lineno, "Mesh.__init__", f"{Nn} nodes, connectivities {conns}: orphan nodes are {want} but the mesh records {got}: an unrecorded orphan keeps a zero row and column, the system is singular")
